@@ -63,8 +63,8 @@ def clean_tree(tree, data=None):
 
     idx_map = {}
 
-    for data_points, node in node_map.items():
-        idx_map[node] = sorted(data_points)
+    for old_node, node in node_map.items():
+        idx_map[node] = sorted(tree.nodes[old_node]["own"])
 
     nx.set_node_attributes(new_tree, name="idxs", values=idx_map)
 
@@ -112,14 +112,14 @@ def _relabel(node, transformed, original):
         for mutation in children:
             result.remove(mutation)
 
-    result = frozenset(result)
-
-    transformed.add_node(result)
+    # Nodes stay keyed by their (unique) clade; the clade's own mutations are kept as an attribute. Keying nodes by
+    # the own-mutation set would merge every pair of clades that are fully covered by their children (both empty).
+    transformed.add_node(node, own=frozenset(result))
 
     for _, children in original.out_edges(node):
-        transformed.add_edge(result, _relabel(children, transformed, original))
+        transformed.add_edge(node, _relabel(children, transformed, original))
 
-    return result
+    return node
 
 
 def roots(graph):
